@@ -575,6 +575,7 @@ type pathStats struct {
 func (in *Interp) runPath(prefix []Decision) {
 	in.path = &PathState{prefix: prefix, known: map[*Term]bool{}, started: time.Now()}
 	in.spec = nil
+	in.lastNow = nil
 	in.stats = pathStats{}
 	in.curFrame = nil
 	in.solver.BeginPath()
